@@ -629,3 +629,152 @@ pub fn boundary_cases() -> Vec<(Table, Query)> {
     ] { all(&txt_tab(&vals), &mut out); }
     out
 }
+
+// ------------------------------------------------------------------ aggregates over a join (second execution path)
+/// SELECT <sel> FROM t JOIN u ON t.<lk> = u.<rk> [GROUP BY keys]; the query is over the joined row
+/// (the columns of `l`, then those of `r`); keys and aggregate arguments are plain columns.
+#[derive(Clone, Debug, PartialEq)]
+pub struct JoinCase { pub l: Table, pub r: Table, pub lk: usize, pub rk: usize, pub q: Query }
+
+impl JoinCase {
+    fn col_sql(&self, j: usize) -> String {
+        let nl = self.l.cols.len();
+        if j < nl { format!("{}.{}", self.l.name, col_name(j)) } else { format!("{}.{}", self.r.name, col_name(j - nl)) }
+    }
+    fn expr_sql(&self, e: &Expr) -> String {
+        match e {
+            Expr::Col(j) => self.col_sql(*j),
+            Expr::Lit(v) => v.to_sql(),
+            Expr::Arith(op, a, b) => format!("({} {} {})", self.expr_sql(a), op.sql(), self.expr_sql(b)),
+            other => other.to_sql(),
+        }
+    }
+    fn env_sql(&self, i: usize) -> String {
+        let q = &self.q;
+        if i < q.keys.len() { self.expr_sql(&q.keys[i]) }
+        else if let Some((f, e)) = q.aggs.get(i - q.keys.len()) {
+            match f {
+                AggFn::CountStar => "COUNT(*)".into(),
+                AggFn::Count => format!("COUNT({})", self.expr_sql(e)),
+                AggFn::Sum => format!("SUM({})", self.expr_sql(e)),
+                AggFn::Avg => format!("AVG({})", self.expr_sql(e)),
+                AggFn::Min => format!("MIN({})", self.expr_sql(e)),
+                AggFn::Max => format!("MAX({})", self.expr_sql(e)),
+            }
+        } else { "NULL".into() }
+    }
+    pub fn to_sql(&self) -> String {
+        let items: Vec<String> = self.q.sel.iter().map(|i| self.env_sql(*i)).collect();
+        let mut s = format!("SELECT {} FROM {} JOIN {} ON {} = {}", items.join(", "), self.l.name, self.r.name,
+                            self.col_sql(self.lk), self.col_sql(self.l.cols.len() + self.rk));
+        if !self.q.keys.is_empty() { s.push_str(&format!(" GROUP BY {}", self.q.keys.iter().map(|k| self.expr_sql(k)).collect::<Vec<_>>().join(", "))); }
+        s
+    }
+    pub fn to_coq(&self) -> String {
+        format!("AggJ {} {} {}%nat {}%nat {}", self.l.to_coq(), self.r.to_coq(), self.lk, self.rk, self.q.to_coq())
+    }
+    /// aggj lcols=.. lrows=.. rcols=.. rrows=.. on=<lk>,<rk> k=.. a=.. s=..
+    pub fn replay_line(&self) -> String {
+        let ql = replay_line(&self.l, &self.q);
+        let tail = ql.split_once(" w=").map(|x| x.1).unwrap_or("");
+        let (lc, lr) = { let t = self.l.to_line(); let (a, b) = t.split_once(" rows=").unwrap(); (a.trim_start_matches("cols=").to_string(), b.to_string()) };
+        let (rc, rr) = { let t = self.r.to_line(); let (a, b) = t.split_once(" rows=").unwrap(); (a.trim_start_matches("cols=").to_string(), b.to_string()) };
+        format!("aggj lcols={} lrows={} rcols={} rrows={} on={},{} w={}", lc, lr, rc, rr, self.lk, self.rk, tail)
+    }
+    pub fn parse(l: &str) -> Option<JoinCase> {
+        let l = l.split(" #").next().unwrap_or(l).trim();
+        let rest = l.strip_prefix("aggj lcols=")?;
+        let (lc, rest) = rest.split_once(" lrows=")?;
+        let (lr, rest) = rest.split_once(" rcols=")?;
+        let (rc, rest) = rest.split_once(" rrows=")?;
+        let (rr, rest) = rest.split_once(" on=")?;
+        let (on, tail) = rest.split_once(" w=")?;
+        let (a, b) = on.split_once(',')?;
+        let (_, q) = parse_replay(&format!("agg cols=I rows=- w={}", tail))?;
+        Some(JoinCase { l: Table::from_line("t", lc, lr)?, r: Table::from_line("u", rc, rr)?, lk: a.parse().ok()?, rk: b.parse().ok()?, q })
+    }
+    /// the joined table of the reference (None: the reference does not say)
+    pub fn joined(&self) -> Option<Table> {
+        let mut rows = vec![];
+        for a in &self.l.rows { for b in &self.r.rows {
+            match cmp3(CmpOp::Eq, a.get(self.lk)?, b.get(self.rk)?)? {
+                Tv::T => { let mut j = a.clone(); j.extend(b.iter().cloned()); rows.push(j); }
+                _ => {}
+            }
+        } }
+        let mut cols = self.l.cols.clone();
+        cols.extend(self.r.cols.iter().cloned());
+        Some(Table { name: "j".into(), cols, rows })
+    }
+    pub fn spec(&self) -> Spec { match self.joined() { Some(j) => spec_query(&j, &self.q), None => Spec::NoDemand } }
+}
+
+fn gen_join_table(rng: &mut Rng, name: &str) -> Table {
+    let mut cols = vec![ColTy::Int, ColTy::Int];
+    for _ in 0..rng.below(3) { cols.push(*rng.pick(&[ColTy::Int, ColTy::Float, ColTy::Text])); }
+    let n = match rng.below(8) { 0 => 0, _ => 1 + rng.below(5) as usize };
+    let cfg = GenCfg::default();
+    let mut rows = vec![];
+    for r in 0..n {
+        let mut row = vec![Val::Int(r as i64 + 1), if rng.chance(1, 5) { Val::Null } else { Val::Int(*rng.pick(&[1, 1, 2, 3, 0])) }];
+        for c in 2..cols.len() { row.push(if rng.chance(1, 4) { Val::Null } else { gen_val(rng, cols[c], &cfg) }); }
+        rows.push(row);
+    }
+    Table { name: name.to_string(), cols, rows }
+}
+
+pub fn gen_join_case(rng: &mut Rng) -> JoinCase {
+    let l = gen_join_table(rng, "t");
+    let r = gen_join_table(rng, "u");
+    let n = l.cols.len() + r.cols.len();
+    let nl = l.cols.len();
+    let nkeys = *rng.pick(&[0usize, 1, 1, 1, 2]);
+    let mut keys = vec![];
+    for _ in 0..nkeys { keys.push(Expr::Col(if rng.chance(2, 3) { 1 + rng.below(nl as u64 - 1) as usize } else { rng.below(n as u64) as usize })); }
+    let nagg = 1 + rng.below(2) as usize;
+    let mut aggs = vec![];
+    for _ in 0..nagg {
+        let f = *rng.pick(&[AggFn::CountStar, AggFn::CountStar, AggFn::Count, AggFn::Sum, AggFn::Sum, AggFn::Avg, AggFn::Min, AggFn::Max]);
+        aggs.push((f, Expr::Col(rng.below(n as u64) as usize)));
+    }
+    let mut sel: Vec<usize> = (0..nkeys + nagg).collect();
+    if rng.chance(1, 6) && sel.len() > 1 { let i = rng.below(sel.len() as u64) as usize; let j = rng.below(sel.len() as u64) as usize; sel.swap(i, j); }
+    JoinCase { l, r, lk: 1, rk: 1, q: Query { where_: None, keys, aggs, sel, having: None } }
+}
+
+/// fixed shapes over one pair of tables with duplicate and NULL join keys
+pub fn structured_join_cases() -> Vec<JoinCase> {
+    let n = Val::Null;
+    let i = Val::Int;
+    let l = Table { name: "t".into(), cols: vec![ColTy::Int, ColTy::Int, ColTy::Float],
+        rows: vec![vec![i(1), i(1), Val::float(1.5)], vec![i(2), n.clone(), Val::float(2.5)], vec![i(3), i(1), n.clone()], vec![i(4), i(2), n.clone()], vec![i(5), n.clone(), n.clone()], vec![i(6), i(7), Val::float(0.5)]] };
+    let r = Table { name: "u".into(), cols: vec![ColTy::Int, ColTy::Int, ColTy::Int],
+        rows: vec![vec![i(1), i(1), i(10)], vec![i(2), i(1), n.clone()], vec![i(3), i(2), i(30)], vec![i(4), n.clone(), i(40)]] };
+    let empty_r = Table { rows: vec![], ..r.clone() };
+    let c = Expr::col;
+    let mut out = vec![];
+    let shapes: Vec<(Vec<Expr>, Vec<(AggFn, Expr)>, Option<Vec<usize>>)> = vec![
+        (vec![c(1)], vec![(AggFn::CountStar, c(0))], None),
+        (vec![c(1)], vec![(AggFn::CountStar, c(0)), (AggFn::Sum, c(5))], None),
+        (vec![c(1)], vec![(AggFn::Count, c(5)), (AggFn::Min, c(5)), (AggFn::Max, c(5)), (AggFn::Avg, c(5))], None),
+        (vec![], vec![(AggFn::CountStar, c(0))], None),
+        (vec![], vec![(AggFn::Sum, c(5))], None),
+        (vec![], vec![(AggFn::Sum, c(0))], None),
+        (vec![], vec![(AggFn::CountStar, c(0)), (AggFn::Sum, c(0)), (AggFn::Sum, c(2))], None),
+        (vec![c(4)], vec![(AggFn::CountStar, c(0))], None),
+        (vec![c(0)], vec![(AggFn::CountStar, c(0)), (AggFn::Sum, c(1))], None),
+        (vec![c(1), c(4)], vec![(AggFn::CountStar, c(0))], None),
+        (vec![c(2)], vec![(AggFn::Sum, c(5))], None),
+        (vec![c(1)], vec![(AggFn::CountStar, c(0))], Some(vec![1, 0])),
+        (vec![c(1)], vec![(AggFn::Sum, c(0))], Some(vec![0, 1])),
+        (vec![c(0)], vec![(AggFn::Sum, c(0))], Some(vec![0, 1])),
+        (vec![c(1)], vec![], None),
+    ];
+    for (keys, aggs, sel) in shapes {
+        for rr in [&r, &empty_r] {
+            let sel = sel.clone().unwrap_or_else(|| (0..keys.len() + aggs.len()).collect());
+            out.push(JoinCase { l: l.clone(), r: rr.clone(), lk: 1, rk: 1, q: Query { where_: None, keys: keys.clone(), aggs: aggs.clone(), sel, having: None } });
+        }
+    }
+    out
+}
